@@ -16,16 +16,22 @@ import (
 	"verifharness/fw"
 )
 
-const rule = "streams: (1) known-finding witnesses and corpus (every test of pypi/testdata whose universe, restricted to what is " +
-	"reachable from the root, fits the size bound; hand-written witnesses); (2) small-scope stream: universes of 2-3 packages " +
-	"with 1-2 versions over a tiny specifier alphabet, all roots; (3) random universes of 2-8 packages (names include " +
-	"setuptools), 1-6 versions from a pool with prereleases, dev/post releases and equal-comparing spellings (1.0 / 1.0.0), " +
-	"0-4 requirements per version on distinct packages (at most one requirement per (dependent version, package)), specifiers " +
-	"of every PEP 440 operator incl. wildcards, comma conjunctions, prerelease bounds, some unparsable; markers over python_version, " +
-	"sys_platform, os_name, extra with and/or/parentheses, a few malformed; requested extras; cycles through the root arise " +
-	"because any version can be the root; conflict gadgets (newest versions pin incompatible ==) force backtracking; every " +
-	"universe is resolved for several roots. A case is distinct by its op line; non-trivial = the resolver returned a graph " +
-	"without graph-level error having at least three nodes, counted by distinct canonical graph."
+const rule = "streams: (1) witnesses of the known findings and corpus (every test of pypi/testdata whose universe, restricted " +
+	"to what is reachable from the root, encodes in < 2.1 MB and resolves within the deadline: pip yaml conversions, additional " +
+	"tests, prerelease, loops, two resolvelib snapshots; checked with the combined oracle); (2) small-scope stream: 3 packages, " +
+	"1-2 versions (with a prerelease), a 5-specifier alphabet, a cycle through a, every root, sampled with a stride from the " +
+	"full index space; (3) random universes: 3-10 packages (names include setuptools/Setuptools), 1-6 versions from a pool " +
+	"with pre/dev/post releases, an epoch and equal-comparing spellings (1.0 / 1.0.0 / 2.0 / 2.0.0), 0-4 requirements per version " +
+	"on distinct packages (U4: at most one requirement per (dependent version, package)); specifiers of every PEP 440 operator " +
+	"incl. wildcards, === and comma conjunctions, bounds mostly taken from the target's own versions, prerelease bounds; 60% of " +
+	"universes mostly-satisfiable (deeper graphs); markers over python_version, sys_platform, os_name, extra with and/or/" +
+	"parentheses; requested extras x, y, X; 10% with malformed specifiers/markers/versions (error paths incl. marker panics); " +
+	"conflict gadgets (all versions of two packages pin a third incompatibly) force backtracking; gadgets shaped like the " +
+	"F-C08-route and F-C08-extras witnesses are grafted onto 4% each so the finding classes are exercised; any version can be " +
+	"the root, so cycles through the root arise; three roots per universe, preferring versions with requirements. Universes on " +
+	"which the reference run needs >= 3000 rounds are not emitted. Failing unclassified universes are shrunk. A case is " +
+	"distinct by its op line; non-trivial = a graph without graph-level error with at least three nodes, counted by distinct " +
+	"canonical graph."
 
 const resolveDeadline = 3 * time.Second
 
